@@ -222,7 +222,7 @@ func c02r2(c *core.Ctx) {
 	}
 	authOK := core.TrueFact(func(v ssa.Value) bool {
 		call, ok := v.(*ssa.Call)
-		return ok && core.Callee(call) != nil && core.Callee(call).Name() == "VerifyClientAuthenticator"
+		return ok && core.Callee(call) != nil && cn(core.Callee(call)) == "VerifyClientAuthenticator"
 	})
 	good, n := true, 0
 	core.Instrs(pf, func(i ssa.Instruction) {
@@ -291,7 +291,7 @@ func c02r3(c *core.Ctx) {
 		if isTestFunc(p, f) {
 			continue
 		}
-		ok := f.Name() == "SetupEncryptionKey" && core.TypeIs(recvType(f), tSetupSess)
+		ok := cn(f) == "SetupEncryptionKey" && core.TypeIs(recvType(f), tSetupSess)
 		c.Check(ok, "write:SetupServerSession.EncryptionKey@"+fname(f), st.Pos(), "written only by SetupEncryptionKey", "SetupServerSession.EncryptionKey is written outside SetupEncryptionKey")
 	}
 	// call sites of SetupEncryptionKey: only where R2 expects it (a step handler that is not the storing one)
@@ -486,7 +486,7 @@ func c02r5(c *core.Ctx) {
 					if fa, isFa := rr.(*ssa.FieldAddr); isFa && fieldNameOf(fa) == "session" {
 						for _, r3 := range *fa.Referrers() {
 							if st, isSt := r3.(*ssa.Store); isSt {
-								if call, isC := st.Val.(*ssa.Call); isC && core.Callee(call) != nil && core.Callee(call).Name() == "NewServerSession" {
+								if call, isC := st.Val.(*ssa.Call); isC && core.Callee(call) != nil && cn(core.Callee(call)) == "NewServerSession" {
 									fresh = true
 								}
 							}
